@@ -9,6 +9,7 @@
 // Dump syntax (no spaces): U N T F n<hex> i<hex16> r<hex16> "u.u.u" [v;v] {"k":v;"k":v}
 // valueexpr adds: *v (pointer to a separately held value), and a member value X = inserted then removed.
 #include <new>
+#include "ledger.hpp"
 #include "common.hpp"
 #include "JSON.hpp"
 #include <memory>
